@@ -177,3 +177,21 @@ func vLexLE(a, b weight) bool {
 //@   ensures[declared] old(v1 != pr.Initial && v1 != pr.Inherit && !typeIs(v1, pr.RawTokens)) ==> value == old(v1) && !save
 //@   unclaimed callee-nopanic@* "resolveVar, the validators and the serializer are decided under C07/C08, not here"
 //@   unclaimed typeassert@* "`_ = value.(pr.CssProperty)` is a deliberate assertion (TODO in the source): declared values other than Inherit/Initial/RawTokens are CssProperty by construction of the validators"
+
+// font-weight (CSS 2.1 §15.6 / css-fonts-3 §3.2): normal = 400, bold = 700, bolder / lighter
+// step from the inherited weight — the parent's computed weight, or the initial value 400 on
+// the root element — as the table of the specification says. Weights are multiples of 100
+// in [100, 900] (the validator accepts nothing else).
+//@ func fontWeight
+//@   props C04
+//@   nopanic
+//@   requires computer != nil && typeIs(_value, pr.IntString)
+//@   let v = _value.(pr.IntString)
+//@   let parent = ite(computer.parentStyle != nil, computer.parentStyle.GetFontWeight().Int, 400)
+//@   requires computer.parentStyle != nil ==> in(computer.parentStyle.GetFontWeight().Int, 100, 200, 300, 400, 500, 600, 700, 800, 900)
+//@   let out = result.(pr.IntString).Int
+//@   ensures typeIs(result, pr.IntString) && result.(pr.IntString).String == ""
+//@   ensures[keywords] (v.String == "normal" ==> out == 400) && (v.String == "bold" ==> out == 700)
+//@   ensures[bolder] v.String == "bolder" ==> out == ite(parent <= 300, 400, ite(parent <= 500, 700, 900))
+//@   ensures[lighter] v.String == "lighter" ==> out == ite(parent <= 500, 100, ite(parent <= 700, 400, 700))
+//@   ensures[number] !in(v.String, "normal", "bold", "bolder", "lighter") ==> out == v.Int
